@@ -35,7 +35,8 @@ RULE = (
     'point order; in half of the cases the start tasks are drawn one per '
     'cycle point).  Oracle: every start task is '
     'launched (unless it has a trigger on an instance beyond the final '
-    'cycle point: such a task is never spawned, by design); every '
+    'cycle point: such a task is never spawned, by design; or it is still '
+    'waiting in the pool of a stalled workflow); every '
     'launched instance is a start task or a graph descendant '
     'of one (reachable through trigger edges, or a later parentless instance '
     'of a reached task, which the scheduler auto-spawns; parentless is taken '
@@ -53,9 +54,10 @@ RULE = (
     'in the schedule, '
     'which re-run tasks, start new flows and merge flows into flow 1.  '
     'Oracle (first clause of the statement only): a job launched at a point '
-    'before the start point whose task proxy belongs to the original flow '
-    '(flow 1 among its flow numbers at launch) must be the target of an '
-    'earlier trigger command.  Non-trivial = warm '
+    'before the start point whose task proxy was spawned in the original '
+    'flow (flow 1 among its flow numbers when it was added to the pool, and '
+    'at launch) must be the target of an earlier trigger command.  '
+    'Non-trivial = warm '
     'start with an inter-cycle trigger crossing the start point, or start '
     'tasks that are not the whole first cycle, or (warm-trig) a trigger '
     'command was applied and >= 2 jobs ran; distinct by the case.')
@@ -65,7 +67,11 @@ ASSUMPTIONS = [
     'triggering invalidates the closure comparison).',
     'warm-trig: a pre-start instance that runs only in flows that do not '
     'include flow 1 (downstream of a manually started new flow) is counted '
-    '(class pre-start-run-in-new-flow-only) but not judged: cylc treats '
+    '(class pre-start-run-in-new-flow-only) but not judged, and neither is '
+    'a proxy spawned in such flows into which flow 1 is merged later '
+    '(class pre-start-run-new-flow-proxy-merged-with-1: it would run '
+    'anyway; the warm-start guard in TaskPool.spawn_task is about spawning '
+    'in flow 1, a merge spawns nothing): cylc treats '
     'pre-start tasks as already run in flow 1 only, and the statement\'s '
     '"unless manually triggered" is read to cover what a manually started '
     'flow leads to.',
@@ -263,6 +269,10 @@ async def _check(case, ctx: Ctx) -> CaseResult:
         sim = sc.sim
         await sc.run_schedule()
         await sc.drain()
+        waiting_at_end = {
+            (t['name'], t['cycle']) for t in (
+                sim.pool_snapshot() if sim.running else [])
+            if t['status'] == 'waiting' and t['submit_num'] == 0}
         classes = [case['mode']]
         viol = []
         launched = {(n, to_int.get(c)) for (c, n, _s) in sim.journal}
@@ -315,10 +325,20 @@ async def _check(case, ctx: Ctx) -> CaseResult:
                        for tr in smodel.trees_at(*r) for a in atoms_of(tr)):
                     classes.append('start-task-depends-beyond-final-point')
                     continue
+                # still in the pool at the end (stalled workflow: e.g. held
+                # back beyond the runahead limit because a descendant of
+                # another start task waits on an off-flow prerequisite): the
+                # statement says what may run, not that a blocked start
+                # task must; a start task that is gone without having run
+                # was dropped
+                if (r[0], to_str[r[1]]) in waiting_at_end:
+                    classes.append('start-task-still-waiting-at-stall')
+                    continue
                 if sc.shut or sc.quiescent:
                     viol.append(Violation(
                         'C46:start-task-not-run',
-                        f'start task {r} was never launched'))
+                        f'start task {r} was never launched and is not in '
+                        f'the pool'))
             for x in sorted(launched - reach):
                 viol.append(Violation(
                     'C46:ran-instance-not-led-to-by-start-tasks',
@@ -456,6 +476,7 @@ def _check_warm_trig(case, sc, classes, launched, to_int, to_str, opts):
     if parents:
         classes.append('post-start-task-with-pre-start-child')
     triggered = set()       # ids targeted by a trigger command so far
+    spawned_in = {}         # id -> flow numbers at its latest add_to_pool
     applied = 0
     merged = set()          # instances whose flow 1 was merged with another
     for ev in sim.trace:
@@ -476,6 +497,8 @@ def _check_warm_trig(case, sc, classes, launched, to_int, to_str, opts):
                         and len(t['flows']) > len(b['flows'])):
                     classes.append('trigger-merged-a-flow-into-flow-1')
                     merged.add((t['name'], to_int.get(t['cycle'])))
+        elif ev['k'] == 'add':
+            spawned_in[f'{ev["cycle"]}/{ev["name"]}'] = ev['flows']
         elif ev['k'] == 'launch':
             p = to_int.get(ev['cycle'])
             if p is None or p >= start:
@@ -491,10 +514,20 @@ def _check_warm_trig(case, sc, classes, launched, to_int, to_str, opts):
             if 1 not in flows:
                 classes.append('pre-start-run-in-new-flow-only')
                 continue
+            # the flows the proxy was spawned in (latest add_to_pool): a
+            # proxy spawned downstream of a manually started flow runs
+            # because of that flow, also when flow 1 is merged into it later
+            # (an upstream task triggered in "all active flows" completes
+            # an output of which it is the child - no spawn, only a merge)
+            born = spawned_in.get(ident, flows)
+            if 1 not in born:
+                classes.append('pre-start-run-new-flow-proxy-merged-with-1')
+                continue
             viol.append(Violation(
                 'C46:launched-before-start-point',
-                f'{ident} launched in flows {flows} (original flow 1 among '
-                f'them) although the start point is {to_str[start]} and no '
+                f'{ident} spawned in flows {born}, launched in flows '
+                f'{flows} (original flow 1 among them) although the start '
+                f'point is {to_str[start]} and no '
                 f'trigger command targeted it (triggered: '
                 f'{sorted(triggered)})'))
     if merged & parents:
